@@ -53,6 +53,30 @@ fn values(cfg: &Cfg) -> Report {
             let g: [usize; $n] = ka::map!(sin, |ref s| s.len());
             r.ev("map!:ref-pattern");
             r.eq("map!", || format!("N={} ref pattern", $n), &g, &core::array::from_fn(|i| format!("s{}", i).len()));
+            // the input array is an ordinary expression: evaluated exactly once, like the receiver of `<[T; N]>::map`
+            {
+                let evals = core::cell::Cell::new(0u32);
+                let mut src = || { evals.set(evals.get() + 1); input };
+                let g: [u32; $n] = ka::map!(src(), |x| x.wrapping_mul(2));
+                let g2: [u32; $n] = ka::map_!(src(), |x| x.wrapping_mul(2));
+                let g3: [u32; $n] = ka::map!(src(), double);
+                r.ev("map!:input-expression-evaluated-once");
+                r.eq("map!(input expression evaluated once)", || format!("N={}", $n), &(g, g2, g3, evals.get()), &(want, want, want, 3));
+            }
+            // the index handed to the closure is a `usize`, whatever the closure does with it (a closure that
+            // never pins the type must not see an `i32` by integer fallback): observe width and sign
+            {
+                fn bits_of<T>(_: &T) -> usize { core::mem::size_of::<T>() * 8 }
+                let w: [usize; $n] = core::array::from_fn(|i| bits_of(&i));
+                let g: [usize; $n] = ka::from_fn!(|i| bits_of(&i));
+                let g2: [usize; $n] = ka::from_fn_!(|i| bits_of(&i));
+                r.ev("from_fn!:index-type");
+                r.eq("from_fn!(index is usize)", || format!("N={} |i| bits_of(&i)", $n), &(g, g2), &(w, w));
+                let w: [u64; $n] = core::array::from_fn(|i| ((i + 1) << 31) as u64);
+                let g: [u64; $n] = ka::from_fn!(|i| ((i + 1) << 31) as u64);
+                let g2: [u64; $n] = ka::from_fn_!(|i| ((i + 1) << 31) as u64);
+                r.eq("from_fn!(index is usize)", || format!("N={} |i| ((i + 1) << 31) as u64", $n), &(g, g2), &(w, w));
+            }
             // from_fn
             let want_f: [u64; $n] = core::array::from_fn(|i| (i as u64) * 3 + 1);
             let g: [u64; $n] = ka::from_fn!(|i| (i as u64) * 3 + 1);
